@@ -14,8 +14,8 @@ LEVEL_TEXT = ("Coq theorems about the cache model: eviction removes exactly the 
               "comes from one of these sources. The history-level statement chk_C05 (removed exactly when PTR / last SRV "
               "/ last address / verify timeout runs out, wake-up requested for that instant, never while PTR+SRV+address "
               "have more than 1 s left, no ServiceResolved afterwards without new records) is REFUTED for the faithful "
-              "model in the three classes that stay as known findings (PTR variant expiry, expiry hidden during the PTR's "
-              "goodbye second, address expiry under two browsed PTR names); outside them it is checked by the monitor on "
+              "model in the two classes that stay as known findings (PTR variant expiry, expiry hidden during the PTR's "
+              "goodbye second); outside them it is checked by the monitor on "
               "every generated history of the implementation; the spec cache chk_C05 judges against is proved to be the "
               "model's cache for all histories. Model tied to the Rust daemon by the K6 simulation")
 TECHNIQUE = ("machine-checked proof in Coq (eviction / goodbye / verify specifications, refutation witnesses) + "
@@ -27,7 +27,7 @@ RULE = ("announcement / goodbye / silence histories of 1-3 instances and respond
         "verify with timeouts 500 ms .. 10 s answered or not, hosts shared between instances and spelled in mixed case, "
         "address-only goodbyes and addresses with shorter TTL than SRV/PTR, restarts (goodbye then announcement within "
         "a second), stop/re-browse; special classes: instance under type and subtype PTR with the SRV running out first "
-        "(must agree exactly) or the address running out first (known finding, hash-order dependent), PTR delivered "
+        "or the address running out first (both must agree exactly: no hash-order dependence left), PTR delivered "
         "with and without cache-flush bit; non-trivial = at least one event")
 TRUSTED = bc.TRUSTED_COMMON
 PARTIAL = ("Exact times are statements about timer-exact schedules; on a late wake-up the monitor requires the event in "
@@ -44,7 +44,6 @@ shrink = bc.shrink_hist
 KNOWN = {
     "alive:ptr-variant": "C05-ptr-variant-expiry",
     "dead:ptr-last-second": "C05-expiry-hidden-by-expiring-ptr",
-    "dead:two-names-addr": "C05-addr-expiry-two-ptr-names",
 }
 
 
